@@ -116,7 +116,7 @@ def validate_impl(scn, fixes, lines, workdir, name='TR', timeout=600):
     """Validates recorded runs against DesyncImpl. Returns dict run -> {accepted, reached (index within run), steps, viols}"""
     copy_specs(workdir)
     tracegen.write_impl_trace(scn, fixes, workdir, name)
-    recs = tracegen.convert(lines)
+    recs = tracegen.convert(lines, scn.get('pipes', 0))
     trace_file = os.path.join(workdir, name + '_trace.ndjson')
     open(trace_file, 'w').write('\n'.join(json.dumps(r) for r in recs) + '\n')
     out, rc, wall = run_tlc(workdir, name, workers=1, extra_env={'TRACE': trace_file}, timeout=timeout)
@@ -153,7 +153,7 @@ def monitor_obs(scn, fixes, lines, workdir, name='OT', timeout=600, recs=None):
     """Monitor-only pass (no implementation model): returns dict run -> list of violated tags"""
     copy_specs(workdir)
     tracegen.write_obs_trace(scn, fixes, workdir, name)
-    recs = recs if recs is not None else tracegen.convert(lines)
+    recs = recs if recs is not None else tracegen.convert(lines, scn.get('pipes', 0))
     trace_file = os.path.join(workdir, name + '_trace.ndjson')
     open(trace_file, 'w').write('\n'.join(json.dumps(r) for r in recs) + '\n')
     out, rc, wall = run_tlc(workdir, name, workers=1, extra_env={'TRACE': trace_file}, timeout=timeout)
